@@ -59,7 +59,7 @@ func gen09(seed int64, tier string) []drv.Case {
 	for i := 0; i < m; i++ {
 		op := []string{"delete", "rename", "delete-files"}[i%3]
 		add(params{Op: op, DelNil: r.Intn(2) == 0, Target: repoNames[r.Intn(len(repoNames))], ZeroFile: r.Intn(3) == 0,
-			Big: (tier == "thorough" && i%40 == 0) || (tier != "thorough" && i == 4)})
+			Big: (tier == "thorough" && (i%40 == 0 || i%40 == 2 || i%40 == 19)) || (tier != "thorough" && (i == 4 || i == 5 || i == 6))})
 	}
 	return cs
 }
@@ -236,7 +236,11 @@ func run09(c drv.Case, res *drv.Result) {
 				t[fmt.Sprintf("%s/f%d", []string{"d", "e", "common"}[r.Intn(3)], f)] = content
 			}
 			if p.Big && j == 1 && rp == p.Target {
-				t = coreh.GenTree(r, p.Seed, 1001, coreh.TreeOpt{Tiny: true}).Tree()
+				nbig := 1001
+				if p.Op == "delete-files" {
+					nbig = 2001 + r.Intn(200) // three file lists
+				}
+				t = coreh.GenTree(r, p.Seed, nbig, coreh.TreeOpt{Tiny: true}).Tree()
 				t["common/f0"] = shared[0]
 			}
 			nsrc++
@@ -280,6 +284,37 @@ func run09(c drv.Case, res *drv.Result) {
 					delPaths = append(delPaths, pth)
 				}
 				seen[pth] = true
+			}
+		}
+		// for every bundle spread over several file lists: at least one path of each stored file list
+		for _, bi := range info[target] {
+			for idx := 0; ; idx++ {
+				raw, ok := env.Meta.RawGet(model.GetArchivePathToBundleFileList(target, bi.id, uint64(idx)))
+				if !ok {
+					break
+				}
+				if idx == 0 {
+					if _, more := env.Meta.RawGet(model.GetArchivePathToBundleFileList(target, bi.id, 1)); !more {
+						break
+					}
+				}
+				var names []string
+				for _, ln := range strings.Split(string(raw), "\n") {
+					ln = strings.TrimSpace(ln)
+					if strings.HasPrefix(ln, "name:") || strings.HasPrefix(ln, "- name:") {
+						names = append(names, strings.Trim(strings.TrimSpace(ln[strings.Index(ln, "name:")+5:]), `"'`))
+					}
+				}
+				if len(names) > 0 {
+					for k := 0; k < 2; k++ {
+						pth := names[r.Intn(len(names))]
+						if _, in := bi.entries[pth]; in && !seen["!"+pth] {
+							seen["!"+pth] = true
+							delPaths = append(delPaths, pth)
+							res.Stat("paths_deleted_from_multi_list_bundles", 1)
+						}
+					}
+				}
 			}
 		}
 		delPaths = append(delPaths, "not/in/any/bundle")
